@@ -1862,7 +1862,11 @@ func (P *Prover) polyLoose(v ssa.Value) Poly {
 			if c, ok := constInt(bo.Y); ok && c >= 0 && c < 62 {
 				return P.polyLoose(bo.X).scale(1 << uint(c))
 			}
+		case token.QUO:
+			if c, ok := constInt(bo.Y); ok && c >= 2 {
+				return P.divP(P.polyLoose(bo.X), c, isUnsigned(bo.Type()))
+			}
 		}
 	}
-	return atomP(P.atom(aVal, v, nil, 0, false).id)
+	return atomP(P.atom(aVal, P.canon(v), nil, 0, false).id)
 }
